@@ -245,7 +245,7 @@ def _execute(ctx, monitors, scripts, kinds):
     inp = os.path.join(ctx.work, "dkg-scripts.ndjson")
     write_scripts(inp, scripts)
     trace = run_harness(ctx, "./internal/dkg", "TestVerifDKGControl", "dkgcontrol.ndjson", env={"VERIF_IN": inp},
-                        timeout=900 if q else 2400)
+                        timeout=1800 if q else 3000)
     # 3. code -> spec (the trace is cut at scenario boundaries and validated by several TLC runs in parallel)
     ok, alarms, dones = _validate_chunks(ctx, trace, 6 if q else 8, 900 if q else 2400)
     nscen = count_lines(trace, "Reset")
